@@ -198,6 +198,37 @@ func genYCfgCase(r *Rng, tier string) Case {
 			}
 		}
 		devs = append(devs, d)
+		// several deviate statements in one deviation: a second property, and / or not-supported among others
+		if r.Chance(11) {
+			grp := []map[string]any{d}
+			if d["kind"] != "not-supported" && r.Chance(50) {
+				e := map[string]any{"path": d["path"], "kind": pick(r, []string{"add", "replace"}), "prop": "config", "val": pick(r, []string{"false", "true"})}
+				if d["prop"] != "config" {
+					grp = append(grp, e)
+				}
+			}
+			if d["kind"] != "not-supported" && (len(grp) == 1 || r.Chance(50)) {
+				ns := map[string]any{"path": d["path"], "kind": "not-supported"}
+				at := r.Intn(len(grp) + 1)
+				grp = append(grp[:at], append([]map[string]any{ns}, grp[at:]...)...)
+			}
+			if d["kind"] == "not-supported" {
+				e := map[string]any{"path": d["path"], "kind": pick(r, []string{"add", "replace"}), "prop": "config", "val": "false"}
+				if r.Chance(50) {
+					grp = append(grp, e)
+				} else {
+					grp = []map[string]any{e, d}
+				}
+			}
+			if len(grp) > 1 {
+				devs = devs[:len(devs)-1]
+				for gi, g := range grp {
+					g["alone"] = false
+					g["cont"] = gi > 0
+					devs = append(devs, g)
+				}
+			}
+		}
 	}
 	return Case{"k": "ycfg", "features": feats, "bfeatures": bfeats, "enabled": enabled, "top": top, "devs": devs}
 }
@@ -242,19 +273,23 @@ func renderBaseModule(c Case) string {
 func renderDevModule(devs []any) string {
 	var b strings.Builder
 	b.WriteString("module d { namespace \"urn:d\"; prefix d; import m { prefix m; }\n")
-	for _, dd := range devs {
+	for di, dd := range devs {
 		d := dd.(map[string]any)
 		var p []string
 		for _, e := range carr(d, "path") {
 			p = append(p, "m:"+e.(string))
 		}
-		b.WriteString("  deviation /" + strings.Join(p, "/") + " {\n")
+		if !cbool(d, "cont") {
+			b.WriteString("  deviation /" + strings.Join(p, "/") + " {\n")
+		}
 		if cstr(d, "kind") == "not-supported" {
 			b.WriteString("    deviate not-supported;\n")
 		} else {
 			b.WriteString("    deviate " + cstr(d, "kind") + " { " + cstr(d, "prop") + " " + yq(cstr(d, "val")) + "; }\n")
 		}
-		b.WriteString("  }\n")
+		if di+1 >= len(devs) || !cbool(devs[di+1].(map[string]any), "cont") {
+			b.WriteString("  }\n")
+		}
 	}
 	b.WriteString("}\n")
 	return b.String()
@@ -305,6 +340,9 @@ func applyDevsToAST(top []any, devs []any) (edited []any, ok bool) {
 		}
 		kind := cstr(d, "kind")
 		if kind == "not-supported" {
+			if a, ok := d["alone"].(bool); ok && !a {
+				return nil, false // RFC 6020 7.18.3.2: not-supported must be the only deviate statement
+			}
 			n["removed"] = true
 			continue
 		}
@@ -351,6 +389,7 @@ var errClasses = []struct {
 	{regexp.MustCompile(`Only existing proprties can be replaced`), "dev-replace-missing"},
 	{regexp.MustCompile(`Property being deleted by deviation must exist`), "dev-delete-missing"},
 	{regexp.MustCompile(`Property not allowed in deviate|Property '.*' not allowed on node`), "dev-not-allowed"},
+	{regexp.MustCompile(`No other deviate statements allowed`), "dev-notsup-others"},
 	{regexp.MustCompile(`Invalid path`), "dev-bad-path"},
 	{regexp.MustCompile(`redefinition of name`), "name-clash"},
 	{regexp.MustCompile(`Choice default .* not found`), "choice-default"},
